@@ -246,6 +246,22 @@ def r_loop(ctx, tv, rule='S1-LOOP'):
             listed = [int(v) for v, t in paths.switch_at(f, b)['targets']]
             if 0 in e[2] or (e[3] and listed == [1]):
                 kind = 'queue-empty'
+        if kind is None and e and e[0] == 'bool':
+            # `while .. && step()? {}` with `step` answering Ok(false) exactly when the queue is empty: the exit edge is
+            # feasible after a failed pop and infeasible (within the iteration) after a successful one
+            sw = tv.pop.target
+            arms = {}
+            if sw is not None and sw >= 0 and paths.switch_at(f, sw) is not None:
+                for x in f.succ(sw):
+                    ec = paths.edge_cond(f, sw, x)
+                    if ec and ec[0] == 'disc' and paths.mentions_call(ec[1], tv.pop.bb):
+                        arms['none' if 0 in ec[2] else 'some'] = x
+            if 'none' in arms and 'some' in arms:
+                e_none, e_some = set(), set()
+                paths.feasible_reach(f, arms['none'], avoid=[tv.pop.bb], edges=e_none)
+                paths.feasible_reach(f, arms['some'], avoid=[tv.pop.bb], edges=e_some)
+                if (b, s) in e_none and (b, s) not in e_some:
+                    kind = 'queue-empty'
         if kind is None:
             # error exit: only error returns / panics reachable
             reach = f.reachable(s)
@@ -807,6 +823,38 @@ def r_scoring(ctx, tv, rule='S8-SCORE'):
                                 again = f.reachable(p.target, avoid=[nxc.bb]) if nxc is not None else set()
                                 okb = nxc is not None and p.bb not in again
                 oko = oko and okb
+    if not oko:
+        # iterator pipeline: out.extend(from_fn(|| heap.pop()).take(capacity).map(|Reverse((OrderedFloat(d), id))| (id, normalized(d, dims))))
+        for c in f.calls():
+            if not c.callee.endswith(('Extend::extend', 'Vec::<T, A>::extend', 'Iterator::collect')):
+                continue
+            it = strip(c.arg_term(len(c.args) - 1))
+            if not (it[0] == 'call' and it[1].endswith('Iterator::map') and len(it[2]) == 2):
+                continue
+            tk, mp = strip(it[2][0]), strip(it[2][1])
+            if not (tk[0] == 'call' and tk[1].endswith('Iterator::take') and len(tk[2]) == 2 and is_cap(tk[2][1])):
+                continue
+            src = strip(tk[2][0])
+            if not (src[0] == 'call' and src[1].endswith('iter::from_fn') and src[2] and strip(src[2][0])[0] == 'closure'):
+                continue
+            gp = F.fn(strip(src[2][0])[1])
+            gm = F.fn(mp[1]) if mp[0] == 'closure' else None
+            if gp is None or gm is None:
+                continue
+            prs = [strip(t) for b0, k0, t in paths.ret_assigns(gp)]
+            pops_ok = len(prs) == 1 and prs[0][0] == 'call' and prs[0][1].endswith('BinaryHeap::<T, A>::pop')
+            good_map = False
+            for b0, k0, t in paths.ret_assigns(gm):
+                t0 = strip(t)
+                if t0[0] == 'tuple' and len(t0[1]) == 2:
+                    idt, dt = strip(t0[1][0]), strip(t0[1][1])
+                    from_param = lambda x: any(y[0] == 'arg' and y[1] == 2 for y in walk(x))
+                    if dt[0] == 'call' and dt[1].endswith('Distance::normalized_distance') and len(dt[2]) == 2:
+                        dims = strip(dt[2][1])
+                        okdim = any(y[0] == 'field' and y[2] == 'dimensions' for y in walk(dims)) or (dims[0] == 'call' and dims[1].endswith('::dimensions'))
+                        good_map = okdim and from_param(dt[2][0]) and from_param(idt) and not any(y[0] == 'call' for y in walk(idt))
+            if pops_ok and good_map:
+                oko = True
     ctx.check(oko, 'S9-OUTPUT', f.path + '/emit', nd[0].loc() if nd else f.loc(), 'emits (id, D::normalized_distance(d, self.dimensions)) of one popped entry while len < capacity',
               'the output loop of `%s` does not emit (id, normalized distance) pairs of single heap entries bounded by the capacity' % f.path)
     # the function returns that output vector
